@@ -107,4 +107,35 @@ c16 = simple(C16_PLAIN, [], PAYLOAD_FN + ["radio_status::parse_radio, SotdmaMess
              "Kani/CBMC: decoded RadioStatus structurally equal to the SOTDMA/ITDMA reference decode of bits 149..168 (selector 148 for 9/18)",
              ["SOTDMA time-out 1: minute asserted only when the 7-bit spec minute is < 64 (oracle neutrality, DESIGN.md C16)"])
 
-CHECKS = {"C03": c03, "C04": c04, "C10": c10, "C11": c11, "C12": c12, "C16": c16}
+C14_PLAIN = ["c14_t01", "c14_t04", "c14_t09", "c14_t10", "c14_t11", "c14_t18", "c14_t27", "c14_t06", "c14_t08", "c14_t17", "c14_t07",
+             "c14_t13", "c14_t20", "c14_t16", "c14_t15"]
+C14_TEXT = ["c14_t19", "c14_t21", "c14_t24", "c14_t05", "c14_t12", "c14_t14"]
+c14 = simple(C14_PLAIN, C14_TEXT, PAYLOAD_FN + ["nom::multi::many_m_n / nom_noalloc::many_m_n", "parsers::remaining_bits"],
+             {"payload": "symbolic length 0..=spec maximum + 2 bytes per type, all contents symbolic", "unwind": 7},
+             "Kani/CBMC: per type, symbolic payload length; reject <=> mandatory part missing; element count = complete elements present; reported values = bits at spec position (zero beyond the end)",
+             ["lengths the specification does not produce (type 15: 76..87 and 120..159 bits, type 17: 80..119 bits) are neutral on accept/reject",
+              "type 5 'missing DTE' read as: no bit left after the destination characters present (DESIGN.md C14)"])
+C15_SMALL = ["c15_t06_p000", "c15_t06_p001", "c15_t06_p009", "c15_t08_p000", "c15_t08_p002", "c15_t08_p008", "c15_t17_p000", "c15_t17_p003"]
+C15_LARGE = ["c15_t06_p064", "c15_t06_p115", "c15_t06_p119", "c15_t06_p120", "c15_t08_p063", "c15_t08_p119", "c15_t08_p120", "c15_t17_p087", "c15_t17_p120"]
+
+
+def c15(res, tier, seed):
+    jobs = []
+    for h in C15_SMALL:
+        jobs += K(h, ("std", "none") if tier == "quick" else ALL, timeout=900)
+    for h in (["c15_t06_p119", "c15_t06_p120", "c15_t08_p063"] if tier == "quick" else C15_LARGE):
+        jobs += K(h, ("std", "none") if tier == "quick" else ALL, timeout=2700)
+    run_kani_jobs(res, jobs)
+    res.assumptions += ["data length concrete per harness: 0,1,2,3,8,9 (+63,119,120 quick; +64,87,115 thorough) bytes; other lengths outside the claim",
+                        "header and data contents fully symbolic"]
+    return {"functions_encoded": ["BinaryAddressedMessage::parse", "BinaryBroadcastMessage::parse", "DgnssBroadcastBinaryMessage::parse",
+                                  "Vec<u8>::from(&[u8]) / heapless::Vec::try_from"],
+            "bounds": {"data_bytes": "0..=120 at the listed lengths", "unwind": "data bytes + 3"},
+            "technique": "Kani/CBMC: out.len() == len - header and out[i] == payload[header+i] for all i; no-alloc: > 119 bytes must be Err",
+            "trusted": KANI_TRUSTED}
+
+
+c09k = simple(C09_PLAIN, C09_TEXT, PAYLOAD_FN + ["parsers::message_type"], {"payload": "spec length per type, all bits symbolic incl. the type bits", "unwind": 6},
+              "Kani/CBMC leaves of C09", [])
+
+CHECKS = {"C03": c03, "C04": c04, "C10": c10, "C11": c11, "C12": c12, "C16": c16, "C14": c14, "C15": c15, "C09": c09k}
